@@ -135,8 +135,11 @@ def generate(seed, tier):
                  "compound": wrng.random() < 0.6,
                  "inlinelimit": wrng.choice((1, 1, 3))}
         layouts.append({"ops": layout_ops(wrng, rounds), "knobs": knobs})
+    from whoosim import queries as Q
+    qr = random.Random("%s/queries" % seed)
     rec = {"prop": ID, "seed": seed, "config": cfg.describe(), "layouts": layouts,
-           "has_deletes": deletes}
+           "has_deletes": deletes,
+           "queries": [Q.gen_shaped_query(qr, cfg) for _ in range(3)] + [Q.gen_query(qr, cfg, depth=2) for _ in range(2)]}
     return rec
 
 
@@ -220,12 +223,55 @@ def make_hooks(s, record, state):
     def after_commit(actor, probe_only=False):
         check(actor, "after commit")
 
+    def check_queries(actor, where):
+        """'...and therefore the result set of every query' - and, while nothing was deleted or merged,
+        the scores: evaluated on the final state of every layout against the reference model."""
+        from whoosh import query
+        from whoosim import queries as Q
+        from whoosim.props.c09 import reference_leaf, close
+        mi = s.model
+        with actor.ix.searcher() as srch:
+            for spec in record.get("queries") or []:
+                try:
+                    exp = Q.evaluate(spec, mi.docs, mi.schema)
+                except Q.Ambiguous:
+                    continue
+                q = Q.build(spec, mi.schema)
+                try:
+                    got = set(h["u"] for h in srch.search(q, limit=None))
+                    got2 = set(srch.stored_fields(dn)["u"] for dn in srch.docs_for_query(q))
+                except (SimAbort, SimKilled, HarnessError):
+                    raise
+                except Exception as e:  # noqa
+                    raise Violation("search_raised", "%s: %s raised %s: %s" % (where, Q.show(spec), type(e).__name__, e), sig="search_raised:" + exc_sig(e))
+                s.count("query_checks")
+                if got != exp or got2 != exp:
+                    raise Violation("same_logical_content", "%s: %s returns uids %s / %s, the model says %s" % (where, Q.show(spec), sorted(got)[:12], sorted(got2)[:12], sorted(exp)[:12]),
+                                    sig="same_logical_content:query_results")
+            if not record.get("has_deletes") and not state["merged"] and "t" in mi.field_names:
+                # default BM25F on a state that was never merged: field length totals are exact, so the
+                # documented formula on the model's statistics must be met whatever the partition into commits
+                for word in list(s.cfg.vocab)[:3]:
+                    ref = reference_leaf(["bm25f"], "t", word, mi.docs, mi.schema, mi.field_names)
+                    try:
+                        got = dict((h["u"], h.score) for h in srch.search(query.Term("t", word), limit=None))
+                    except (SimAbort, SimKilled, HarnessError):
+                        raise
+                    except Exception as e:  # noqa
+                        raise Violation("search_raised", "%s: Term(t,%s) raised %s: %s" % (where, word, type(e).__name__, e), sig="search_raised:" + exc_sig(e))
+                    s.count("score_checks")
+                    bad = [(u, got.get(u), ref[u]) for u in ref if u not in got or not close(got[u], ref[u])]
+                    if bad or set(got) != set(ref):
+                        raise Violation("collection_stats_layout_independent", "%s: Term(t,%s) scores (uid, observed, BM25F on the model's statistics) = %s"
+                                        % (where, word, bad[:3]), sig="scores_layout_independent")
+
     def finish(actor):
         actor.ix = None
         s.new_process("final")
         if s.index_exists():
             actor.ensure_index()
             check(actor, "cold reopen")
+            check_queries(actor, "final state")
     return {"after_commit": after_commit, "finish": finish, "before_commit": before_commit}
 
 
